@@ -219,6 +219,26 @@ class LabelWorld(OracleWorld):
             return self.cursor_next(m, st, ref, self.cursor(m, st, it))
         return None
 
+    def str_split_once(self, m, st, sv, pat, name):
+        raise AnalysisError("the label is cut with %s(%s): that is the %s occurrence of the character in the label, which is the rule's own position only if the character does not occur %s — a repeated contextual character would be judged in the context of another occurrence" % (name, "the character at offset" if isinstance(pat, Sym) and pat.name == ("at", 0) else repr(pat), "first" if name == "split_once" else "last", "earlier" if name == "split_once" else "later"))
+
+    def iter_next_back(self, m, st, itref, it):
+        """chars().next_back() on a forward cursor over [lo, hi): the character at hi-1; hi moves down."""
+        cur = self.cursor(m, st, it)
+        d, pos, lo, hi, ix, started = cur.data
+        if d != 1:
+            raise AnalysisError("next_back on a reversed label iterator")
+        if hi is None:
+            raise AnalysisError("next_back on an iterator that runs to the label's end (position not relative to the rule's own)")
+        tgt = self._add(hi, -1)
+        # (nothing before the cursor's current position is left to yield)
+        if pos[0] == tgt[0] and tgt[1] < pos[1]:
+            st.emit(("read", tgt[1], False))
+            return ip.none()
+        r = self.read_at(m, st, cur, tgt)
+        self._store_cursor(m, st, itref, Opq("lcur", (d, pos, lo, tgt, ix, started)))
+        return r
+
     def skip_next(self, m, st, itref):
         it = m.load(st, itref.loc) if isinstance(itref, Ref) else itref
         return self.cursor_next(m, st, itref, self.cursor(m, st, it))
@@ -261,6 +281,12 @@ class LabelWorld(OracleWorld):
             if isinstance(b, I) and b.v == 0 and which == "lo":
                 continue
             p_ = self._bytepos(b)
+            if p_ is None and which == "lo" and isinstance(b, I) and sub[0] is not None and sub[0][0] == "rel":
+                # &rest[c.len_utf8()..] where rest starts with the character c = label[offset+k]
+                k = sub[0][1]
+                r_ = rng_get(st, Sym(("at", k), "char"))
+                if self.present(st, k) and _utf8_len(r_[0][0]) == _utf8_len(r_[-1][1]) == b.v:
+                    p_ = ("rel", k + 1)
             if p_ is None:
                 raise AnalysisError("label slice bound %r: not the byte position of a character that was read" % (b,))
             if which == "lo":
